@@ -1044,7 +1044,8 @@ def atomic_copies(ctx: Ctx) -> None:
         base = [-101.25, -54321.0, 2.5e5][it % 3]
         ec = 0.05
         classes = [(0, base), (1, base + 3.75), (0, base + 6 * ec)]
-        sim = MolecularSimilarity(0.1, ec)
+        mirror = it % 2 == 1            # every other case: mirror images count as the same structure (allow_inversion)
+        sim = MolecularSimilarity(0.1, ec, allow_inversion=True) if mirror else MolecularSimilarity(0.1, ec)
         k = KineticTransitionNetwork()
         coords = AtomicCoordinates(labels, structures[0].flatten().copy())
         offers = []
@@ -1056,7 +1057,8 @@ def atomic_copies(ctx: Ctx) -> None:
                 sh = idx[:]; rng.shuffle(sh)
                 for a, b in zip(idx, sh):
                     perm[a] = b
-            x = (structures[si][perm] @ rot().T + np.array([rng.uniform(-2, 2) for _ in range(3)])).flatten()
+            sign = -1.0 if (mirror and offers and rng.random() < 0.6) else 1.0
+            x = (sign * structures[si][perm] @ rot().T + np.array([rng.uniform(-2, 2) for _ in range(3)])).flatten()
             offers.append((ci, x, energy))
         with np.errstate(all="ignore"):
             import warnings
@@ -1071,7 +1073,7 @@ def atomic_copies(ctx: Ctx) -> None:
                      f"{len(offers)} rotated/translated/like-atom-permuted copies of 3 distinct stationary points "
                      f"({n} atoms: two geometries, one of them at two energies {6 * ec} apart, criterion {ec}, energies "
                      f"near {base}) were offered; {k.n_minima} minima are stored",
-                     {"labels": labels, "offers": [[ci, x.tolist(), energy] for ci, x, energy in offers]})
+                     {"labels": labels, "offers": [[ci, x.tolist(), energy] for ci, x, energy in offers], "mirror": mirror})
             return
 
 
